@@ -1893,3 +1893,151 @@ func ruleInitReset(p *Prog, r *Result) {
 	}
 	r.floor("plan fields written by Next/Batch", n, 15)
 }
+
+// ---------------- CHECKORDER ----------------
+
+func init() {
+	register("CHECKORDER", "names are resolved before they are looked at: in the parser function that builds the select statement's checking context, the call that validates the select fields (which runs the alias-cycle guard and resolves the names the fields use) dominates every other call that can reach a Check method or asks a select field for its type (ORDER BY / GROUP BY field lookup, the WHERE check); and the field types kept in the statement are stored from ReturnType after the fields were checked (types taken from unresolved names are wrong: `a + 'x'` is a number while `a` is only a name)", ruleCheckOrder)
+}
+
+func ruleCheckOrder(p *Prog, r *Result) {
+	vf := p.MethodByName("SelectStmt", "ValidateFields")
+	if vf == nil {
+		r.undecided("anchor: (*SelectStmt).ValidateFields not found")
+		return
+	}
+	// the parser function that allocates the CheckCtx carrying the select fields
+	var host *ssa.Function
+	for _, fn := range p.Funcs {
+		if fn.Signature.Recv() == nil || typeName(deref(fn.Signature.Recv().Type())) != "Parser" {
+			continue
+		}
+		allInstrs(fn, func(in ssa.Instruction) {
+			st, ok := in.(*ssa.Store)
+			if !ok {
+				return
+			}
+			if o, f, base, ok := fieldOfAddr(st.Addr); ok && o != nil && o.Obj().Name() == "CheckCtx" && f == "Fields" {
+				if _, fresh := base.(*ssa.Alloc); fresh && !isNilConst(st.Val) {
+					host = fn
+				}
+			}
+		})
+	}
+	if host == nil {
+		r.undecided("anchor: the parser function building the select statement's CheckCtx was not found")
+		return
+	}
+	reaches := func(g *ssa.Function, names ...string) bool {
+		found := false
+		for _, h := range p.staticClosure(g, 3, nil) {
+			allInstrs(h, func(in ssa.Instruction) {
+				if c, ok := in.(ssa.CallInstruction); ok && c.Common().IsInvoke() {
+					for _, nm := range names {
+						if c.Common().Method.Name() == nm {
+							found = true
+						}
+					}
+				}
+			})
+		}
+		return found
+	}
+	var guard *ssa.Call
+	allInstrs(host, func(in ssa.Instruction) {
+		if c := isStaticCallTo(in, vf); c != nil && guard == nil {
+			guard = c
+		}
+	})
+	if guard == nil {
+		r.hit(p.FName(host)+"|validates-fields", p.Pos(host.Pos()), "the select fields are not validated in the function that builds their checking context")
+		return
+	}
+	// the guard's error ends the function
+	returned := false
+	for _, b := range host.Blocks {
+		for _, a := range dominatingAtoms(b) {
+			if a.Op == token.NEQ && a.X == ssa.Value(guard) && isNilConst(a.Y) {
+				if ret := retOf(b); ret != nil {
+					returned = true
+				}
+			}
+		}
+	}
+	r.add(returned, p.FName(host)+"|validates-fields", p.InstrPos(guard), "the error of the select-field validation ends the parse")
+	n := 0
+	allInstrs(host, func(in ssa.Instruction) {
+		c, ok := in.(*ssa.Call)
+		if !ok || c == guard {
+			return
+		}
+		what := ""
+		if c.Call.IsInvoke() {
+			if nm := c.Call.Method.Name(); nm == "Check" || nm == "ReturnType" {
+				what = nm
+			}
+		} else if g := c.Call.StaticCallee(); g != nil && p.InPkg(g) && g != vf && reaches(g, "Check", "ReturnType") {
+			// only calls made once the checking context exists matter: those that receive the statement or the context
+			uses := false
+			for _, a := range c.Call.Args {
+				if tn := typeName(deref(a.Type())); tn == "SelectStmt" || tn == "CheckCtx" {
+					uses = true
+				}
+			}
+			if uses {
+				what = g.Name()
+			}
+		}
+		if what == "" {
+			return
+		}
+		n++
+		r.add(instrDominates(guard, c), fmt.Sprintf("%s|%s#%d", p.FName(host), what, n), p.InstrPos(c), "a call that checks an expression or asks a select field for its type comes after the select fields were validated")
+	})
+	r.floor("calls that look at the select fields", n, 3)
+	// field types recomputed after the check
+	refreshed := false
+	for _, f := range p.staticClosure(vf, 2, nil) {
+		allInstrs(f, func(in ssa.Instruction) {
+			st, ok := in.(*ssa.Store)
+			if !ok {
+				return
+			}
+			ia, ok := st.Addr.(*ssa.IndexAddr)
+			if !ok || !isFieldLoad(ia.X, "SelectStmt", "FieldTypes") {
+				return
+			}
+			if c, ok := st.Val.(*ssa.Call); ok && c.Call.IsInvoke() && c.Call.Method.Name() == "ReturnType" {
+				// after the checks: not inside the loop that still checks fields (no Check-reaching call can follow it on a path back)
+				// no check can follow the store: from its block no block with a Check-reaching call is reachable
+				okPos := true
+				seenB := map[*ssa.BasicBlock]bool{}
+				var walk func(b *ssa.BasicBlock)
+				walk = func(b *ssa.BasicBlock) {
+					if seenB[b] {
+						return
+					}
+					seenB[b] = true
+					for _, in2 := range b.Instrs {
+						if c2, ok := in2.(*ssa.Call); ok {
+							g := c2.Call.StaticCallee()
+							if (c2.Call.IsInvoke() && c2.Call.Method.Name() == "Check") || (g != nil && p.InPkg(g) && reaches(g, "Check")) {
+								okPos = false
+							}
+						}
+					}
+					for _, sc := range b.Succs {
+						walk(sc)
+					}
+				}
+				for _, sc := range st.Block().Succs {
+					walk(sc)
+				}
+				if okPos {
+					refreshed = true
+				}
+			}
+		})
+	}
+	r.add(refreshed, "(*SelectStmt).ValidateFields|types-refreshed", p.Pos(vf.Pos()), "after the fields were checked their types are stored into FieldTypes from ReturnType")
+}
